@@ -89,7 +89,9 @@ class SDM():
                         continue
                     if n:
                         dk += 0.0001
-                    if (dk > 0.01) and (mind >= dk):
+                    # A distance of zero is the atom itself (under the identity or on a special position). Two different
+                    # atoms on one site (a shared site) are a contact like any other:
+                    if (dk > 0.01 or i != j) and (mind >= dk):
                         mind = min(dk, mind)
                         sdm_item.dist = mind
                         sdm_item.atom1 = at1
